@@ -17,6 +17,7 @@ import (
 	"verif/harness/internal/c10"
 	"verif/harness/internal/c16"
 	"verif/harness/internal/c17"
+	"verif/harness/internal/c19"
 	"verif/harness/internal/c20"
 	"verif/harness/internal/callback"
 	"verif/harness/internal/logout"
@@ -56,6 +57,8 @@ func main() {
 		err = c16.Run(*out, *tier, *seed)
 	case "C17":
 		err = c17.Run(*out, *tier, *seed)
+	case "C19":
+		err = c19.Run(*out, *tier, *seed)
 	case "C20":
 		err = c20.Run(*out, *tier, *seed)
 	default:
